@@ -563,10 +563,15 @@ def rec_key_map(rec):
 def report(ctx, part, fails, case):
     """Turn the failures of one replay into verdicts; returns True iff nothing new (unknown) was found."""
     clean = True
-    for sig, what in fails:
-        if ctx.violation(sig, f"[{part}] {what}", case):
+    for f in fails:
+        if ctx.violation(f[0], f"[{part}] {f[1]}", case):
             clean = False
     return clean
+
+
+def diverged(fails):
+    """equality failures are observations: the container itself is still in the expected state."""
+    return any(".__eq__:" not in f[0] for f in fails)
 
 
 def run_map(ctx, cfg, tag, variants=(0, 1), mut=None, drop=None, only=None, tlc=None):
@@ -594,7 +599,7 @@ def run_map(ctx, cfg, tag, variants=(0, 1), mut=None, drop=None, only=None, tlc=
                 continue
             fails = replay_map(ctx, env, rec, variant, prev_items, mut=mut, drop=drop)
             case = {"part": "map", "cfg": cfg, "key": [key[0], key[1], [list(x) for x in key[2]]], "variant": variant}
-            if fails:
+            if diverged(fails):
                 failed.add((key[0], key[1], key[2], variant))
             if report(ctx, "map", fails, case):
                 ctx.validated += 1
@@ -851,7 +856,7 @@ def run_set(ctx, cfg, tag, variants=(0, 1), mut=None, drop=None, only=None, tlc=
                 continue
             fails, rec = replay_set(ctx, env, by_key, init, script, variant, mut=mut, drop=drop)
             case = {"part": "set", "cfg": cfg, "key": [init, [list(x) for x in script]], "variant": variant}
-            if fails:
+            if diverged(fails):
                 failed.add((init, script, variant))
             if report(ctx, "set", fails, case):
                 ctx.validated += 1
